@@ -238,7 +238,7 @@ func ruleFlagImplications(w *World, r *RuleResult) {
 				switch {
 				case u.bits&sysU != 0:
 					r.ok(key, w.instrPos(u.site), "system underflow", false)
-				case name == "(Condition).negateOverflowFlags" && u.bits&subn != 0:
+				case name == "(Condition).negateOverflowFlags" && (u.bits&subn != 0 || seenBefore(u.site, orsBit(subn)) || mustPassOK(u.site, orsBit(subn))):
 					r.ok(key, w.instrPos(u.site), "negateOverflowFlags raises Underflow together with Subnormal", true)
 				default:
 					ok := false
@@ -528,4 +528,9 @@ func ruleDivisionGuards(w *World, r *RuleResult) {
 			}
 		}
 	}
+}
+
+func mustPassOK(from ssa.Instruction, ev func(ssa.Instruction) bool) bool {
+	ok, _ := mustPassFrom(from, ev, nil)
+	return ok
 }
